@@ -178,8 +178,10 @@ func (v *list_[V]) InsertValues(slot uint, values Sequential[V]) {
 	// Copy the values into the new array.
 	var iterator = v.GetIterator()
 	var index int
+	var inserted bool
 	for index < int(size) {
-		if index == int(slot) {
+		if index == int(slot) && !inserted {
+			inserted = true // An empty sequence must not be inserted again and again.
 			var iterator2 = values.GetIterator()
 			for iterator2.HasNext() {
 				index++
